@@ -11,6 +11,21 @@ namespace Scalibr.Walk
 /-- the same configuration with `ErrorOnFSErrors` cleared -/
 def nonFatal (c : Cfg) : Cfg := { c with errorOnFSErrors := false }
 
+theorem nf_eofs (c : Cfg) : (nonFatal c).errorOnFSErrors = false := Eq.trans rfl rfl
+theorem nf_required (c : Cfg) : (nonFatal c).required = c.required := Eq.trans rfl rfl
+theorem nf_maxFileSize (c : Cfg) : (nonFatal c).maxFileSize = c.maxFileSize := Eq.trans rfl rfl
+theorem nf_useGitignore (c : Cfg) : (nonFatal c).useGitignore = c.useGitignore := Eq.trans rfl rfl
+theorem nf_readSymlinks (c : Cfg) : (nonFatal c).readSymlinks = c.readSymlinks := Eq.trans rfl rfl
+theorem nf_nExt (c : Cfg) : (nonFatal c).nExt = c.nExt := Eq.trans rfl rfl
+theorem nf_paths (c : Cfg) : (nonFatal c).paths = c.paths := Eq.trans rfl rfl
+theorem nf_cancelBefore (c : Cfg) : (nonFatal c).cancelBefore = c.cancelBefore := Eq.trans rfl rfl
+theorem nf_prologue (c : Cfg) (s : St) : prologue (nonFatal c) s = prologue c s := Eq.trans rfl rfl
+theorem nf_popOnExit (c : Cfg) (s : St) (p : Path) (e : Err) : popOnExit (nonFatal c) s p e = popOnExit c s p e := Eq.trans rfl rfl
+theorem nf_shouldSkipDir (c : Cfg) (g : List GiEntry) (p : Path) : shouldSkipDir (nonFatal c) g p = shouldSkipDir c g p := Eq.trans rfl rfl
+theorem nf_stackMatch (c : Cfg) (g : List GiEntry) (t : List String) (d : Bool) : stackMatch (nonFatal c) g t d = stackMatch c g t d := Eq.trans rfl rfl
+theorem nf_runExtractor (c : Cfg) (f : Faults) (s : St) (e : Nat) (p : Path) (sz : Nat) :
+    runExtractor (nonFatal c) f s e p sz = runExtractor c f s e p sz := Eq.trans rfl rfl
+
 theorem popOnExit_err (c : Cfg) (s : St) (p : Path) (e : Err) :
     (popOnExit c s p e).2 = e ∨ (popOnExit c s p e).2 = .panic := by
   unfold popOnExit; (repeat' split) <;> simp
@@ -18,7 +33,7 @@ theorem popOnExit_err (c : Cfg) (s : St) (p : Path) (e : Err) :
 theorem fserrCall_eofs (c : Cfg) (he : c.errorOnFSErrors = true) (s : St) :
     (fserrCall c s).2 = .fs ∨ fserrCall (nonFatal c) s = fserrCall c s := by
   unfold fserrCall
-  show _ ∨ (match prologue c s with | (s, some e) => (s, e) | (s, none) => if (nonFatal c).errorOnFSErrors then (s, .fs) else (s, .none)) = _
+  rw [nf_prologue]
   generalize prologue c s = r
   obtain ⟨s1, e1⟩ := r
   cases e1 with
@@ -34,64 +49,54 @@ theorem extractLoop_eofs (c : Cfg) (he : c.errorOnFSErrors = true) (f : Faults) 
   | nil => intro s chk; right; rfl
   | cons e rest ih =>
     intro s chk
-    simp only [extractLoop]
-    show _ ∨ (if c.required e p then
-        if c.maxFileSize > 0 && !chk then
-          if f.statFail p then (if (nonFatal c).errorOnFSErrors then (s, some Err.fs) else (s, none))
-          else if size > c.maxFileSize then (s, none)
-          else
-            let (s', pan) := runExtractor c f s e p size
-            if pan then (s', some .panic) else extractLoop (nonFatal c) f p size s' rest true
-        else
-          let (s', pan) := runExtractor c f s e p size
-          if pan then (s', some .panic) else extractLoop (nonFatal c) f p size s' rest chk
-      else extractLoop (nonFatal c) f p size s rest chk) = _
-    generalize runExtractor c f s e p size = r
-    obtain ⟨s1, pan⟩ := r
-    simp only []
-    split
-    · split
-      · split
-        · left; simp [he]
-        · split
-          · right; rfl
-          · split
-            · right; rfl
-            · exact ih s1 true
-      · split
-        · right; rfl
-        · exact ih s1 chk
-    · exact ih s chk
+    simp only [extractLoop, nf_required, nf_maxFileSize, nf_eofs, nf_runExtractor]
+    by_cases hreq : c.required e p = true
+    · simp only [hreq, if_true]
+      by_cases hcond : (decide (c.maxFileSize > 0) && !chk) = true
+      · simp only [hcond, if_true]
+        by_cases hst : f.statFail p = true
+        · left; simp [hst, he]
+        · simp only [hst, Bool.false_eq_true, if_false]
+          by_cases hgt : size > c.maxFileSize
+          · right; simp [hgt]
+          · simp only [hgt, if_false]
+            by_cases hpan : (runExtractor c f s e p size).2 = true
+            · right; simp [hpan]
+            · simp only [hpan, Bool.false_eq_true, if_false]
+              exact ih _ true
+      · simp only [hcond, Bool.false_eq_true, if_false]
+        by_cases hpan : (runExtractor c f s e p size).2 = true
+        · right; simp [hpan]
+        · simp only [hpan, Bool.false_eq_true, if_false]
+          exact ih _ chk
+    · simp only [hreq, Bool.false_eq_true, if_false]
+      exact ih s chk
 
 theorem handleLeaf_eofs (c : Cfg) (he : c.errorOnFSErrors = true) (f : Faults) (s : St) (p : Path) (k : Kind) (size : Nat) :
     (handleLeaf c f s p k size).2 = some .fs ∨ handleLeaf (nonFatal c) f s p k size = handleLeaf c f s p k size := by
   unfold handleLeaf
-  show _ ∨ (if (k = .special) || (k = .symlink && !c.readSymlinks) then (s, none) else
-      if c.useGitignore && stackMatch c s.gis (tokens p) false then (s, none) else
-      extractLoop (nonFatal c) f p size s (List.range c.nExt) false) = _
-  split
-  · right; rfl
-  · split
-    · right; rfl
-    · exact extractLoop_eofs c he f p size _ s false
+  simp only [nf_readSymlinks, nf_useGitignore, nf_stackMatch, nf_nExt]
+  by_cases h1 : (k = .special || (k = .symlink && !c.readSymlinks)) = true
+  · right; simp only [h1, if_true]
+  · simp only [h1, Bool.false_eq_true, if_false]
+    by_cases h2 : (c.useGitignore && stackMatch c s.gis (tokens p) false) = true
+    · right; simp only [h2, if_true]
+    · simp only [h2, Bool.false_eq_true, if_false]
+      exact extractLoop_eofs c he f p size _ s false
 
 theorem pushGi_eofs (c : Cfg) (he : c.errorOnFSErrors = true) (f : Faults) (s : St) (p : Path) (gi : Option PatSet) :
     (pushGi c f s p gi).2 = some .fs ∨ pushGi (nonFatal c) f s p gi = pushGi c f s p gi := by
   unfold pushGi
-  show _ ∨ (if c.useGitignore then
-      if shouldSkipDir c s.gis p then ({ s with gis := s.gis ++ [none], giDirs := s.giDirs ++ [p] }, none)
-      else if f.openFail (p ++ [".gitignore"]) then
-        if (nonFatal c).errorOnFSErrors then (s, some Err.fs)
-        else ({ s with gis := s.gis ++ [none], giDirs := s.giDirs ++ [p] }, none)
-      else ({ s with gis := s.gis ++ [gi.map fun ps => (domainOf p, ps)], giDirs := s.giDirs ++ [p] }, none)
-    else (s, none)) = _
-  split
-  · split
-    · right; rfl
-    · split
-      · left; simp [he]
-      · right; rfl
-  · right; rfl
+  simp only [nf_useGitignore, nf_shouldSkipDir, nf_eofs]
+  by_cases hu : c.useGitignore = true
+  · simp only [hu, if_true]
+    by_cases h1 : shouldSkipDir c s.gis p = true
+    · right; simp only [h1, if_true]
+    · simp only [h1, Bool.false_eq_true, if_false]
+      by_cases h2 : f.openFail (p ++ [".gitignore"]) = true
+      · left; simp [h2, he]
+      · right; simp only [h2, Bool.false_eq_true, if_false]
+  · right; simp only [hu, Bool.false_eq_true, if_false]
 
 /-- "ended with the filesystem error or a panic, or identical" -/
 def FsOrSame (a b : St × Err) : Prop := a.2 = .fs ∨ a.2 = .panic ∨ b = a
@@ -108,10 +113,7 @@ mutual
 theorem walkNode_eofs (c : Cfg) (he : c.errorOnFSErrors = true) (f : Faults) (p : Path) :
     ∀ (n : Node) (s : St), FsOrSame (walkNode c f s p n) (walkNode (nonFatal c) f s p n)
   | .file k size, s => by
-    simp only [walkNode]
-    show FsOrSame _ (match prologue c s with
-      | (s, some e) => (s, e)
-      | (s, none) => let (s, e) := handleLeaf (nonFatal c) f s p k size; (s, e.getD .none))
+    simp only [walkNode, nf_prologue]
     generalize prologue c s = r
     obtain ⟨s1, e1⟩ := r
     cases e1 with
@@ -125,20 +127,7 @@ theorem walkNode_eofs (c : Cfg) (he : c.errorOnFSErrors = true) (f : Faults) (p 
         simp only [] at h; subst h; rfl
       · right; right; rw [h]
   | .dir gi es, s => by
-    simp only [walkNode]
-    show FsOrSame _ (match prologue c s with
-      | (s, some e) => popOnExit c s p e
-      | (s, none) =>
-        match pushGi (nonFatal c) f s p gi with
-        | (s, some e) => popOnExit c s p e
-        | (s, none) =>
-          if shouldSkipDir c s.gis p then popOnExit c s p .none
-          else if f.openFail p then
-            let (s, e) := fserrCall (nonFatal c) s
-            popOnExit c s p e
-          else
-            let (s, e) := walkEntries (nonFatal c) f s p es 0
-            popOnExit c s p e)
+    simp only [walkNode, nf_prologue, nf_popOnExit, nf_shouldSkipDir]
     generalize prologue c s = r
     obtain ⟨s1, e1⟩ := r
     cases e1 with
@@ -157,16 +146,19 @@ theorem walkNode_eofs (c : Cfg) (he : c.errorOnFSErrors = true) (f : Faults) (p 
         | some e => right; right; rfl
         | none =>
           simp only []
-          split
-          · right; right; rfl
-          · split
-            · rcases fserrCall_eofs c he s2 with h2 | h2
+          by_cases hsk : shouldSkipDir c s2.gis p = true
+          · simp only [hsk, if_true]; right; right; rfl
+          · simp only [hsk, Bool.false_eq_true, if_false]
+            by_cases hop : f.openFail p = true
+            · simp only [hop, if_true]
+              rcases fserrCall_eofs c he s2 with h2 | h2
               · generalize fserrCall c s2 = z at h2 ⊢
                 obtain ⟨s3, e3⟩ := z
                 simp only [] at h2; subst h2
                 exact fsOrSame_pop c s3 p .fs (Or.inl rfl) _
               · rw [h2]; right; right; rfl
-            · rcases walkEntries_eofs c he f p es 0 s2 with h2 | h2 | h2
+            · simp only [hop, Bool.false_eq_true, if_false]
+              rcases walkEntries_eofs c he f p es 0 s2 with h2 | h2 | h2
               · generalize walkEntries c f s2 p es 0 = z at h2 ⊢
                 obtain ⟨s3, e3⟩ := z
                 simp only [] at h2; subst h2
@@ -180,18 +172,21 @@ theorem walkEntries_eofs (c : Cfg) (he : c.errorOnFSErrors = true) (f : Faults) 
     ∀ (es : List (String × Node)) (k : Nat) (s : St), FsOrSame (walkEntries c f s p es k) (walkEntries (nonFatal c) f s p es k)
   | [], k, s => by
     simp only [walkEntries]
-    split
-    · rcases fserrCall_eofs c he s with h | h
+    by_cases hr : f.readEntryFail p k = true
+    · simp only [hr, if_true]
+      rcases fserrCall_eofs c he s with h | h
       · left; exact h
       · right; right; exact h
-    · right; right; rfl
+    · simp only [hr, Bool.false_eq_true, if_false]; right; right; rfl
   | (name, n) :: rest, k, s => by
     simp only [walkEntries]
-    split
-    · rcases fserrCall_eofs c he s with h | h
+    by_cases hr : f.readEntryFail p k = true
+    · simp only [hr, if_true]
+      rcases fserrCall_eofs c he s with h | h
       · left; exact h
       · right; right; exact h
-    · rcases walkNode_eofs c he f (p ++ [name]) n s with h | h | h
+    · simp only [hr, Bool.false_eq_true, if_false]
+      rcases walkNode_eofs c he f (p ++ [name]) n s with h | h | h
       · left
         generalize walkNode c f s (p ++ [name]) n = z at h ⊢
         obtain ⟨s1, e1⟩ := z
@@ -204,9 +199,149 @@ theorem walkEntries_eofs (c : Cfg) (he : c.errorOnFSErrors = true) (f : Faults) 
         generalize walkNode c f s (p ++ [name]) n = z
         obtain ⟨s1, e1⟩ := z
         simp only []
-        split
-        · right; right; rfl
-        · exact walkEntries_eofs c he f p rest (k+1) s1
+        by_cases hne : e1 = .none
+        · subst hne
+          simp only [ne_eq, not_true_eq_false, if_false]
+          exact walkEntries_eofs c he f p rest (k+1) s1
+        · simp only [ne_eq, hne, not_false_eq_true, if_true]; right; right; rfl
 end
+
+theorem fsOrSame_of_fserr (c : Cfg) (he : c.errorOnFSErrors = true) (s : St) :
+    FsOrSame (fserrCall c s) (fserrCall (nonFatal c) s) := by
+  rcases fserrCall_eofs c he s with h | h
+  · left; exact h
+  · right; right; exact h
+
+theorem walkFrom_eofs (c : Cfg) (he : c.errorOnFSErrors = true) (f : Faults) (root : Node) (p : Path) (s : St) :
+    FsOrSame (walkFrom c f s root p) (walkFrom (nonFatal c) f s root p) := by
+  unfold walkFrom
+  split
+  · exact fsOrSame_of_fserr c he s
+  · split
+    · exact fsOrSame_of_fserr c he s
+    · exact walkNode_eofs c he f p _ s
+
+theorem fsOrSame_setGis {a b : St × Err} (h : FsOrSame a b) (g : List GiEntry) :
+    FsOrSame ({ a.1 with gis := g }, a.2) ({ b.1 with gis := g }, b.2) := by
+  rcases h with h | h | h
+  · left; exact h
+  · right; left; exact h
+  · right; right; rw [h]
+
+theorem walkRequested_eofs (c : Cfg) (he : c.errorOnFSErrors = true) (f : Faults) (root : Node) (p : Path) (s : St) :
+    FsOrSame (walkRequested c f s root p) (walkRequested (nonFatal c) f s root p) := by
+  unfold walkRequested
+  simp only [nf_useGitignore, nf_eofs, nf_prologue]
+  split
+  · exact fsOrSame_of_fserr c he s
+  · split
+    · exact fsOrSame_of_fserr c he s
+    · by_cases hu : c.useGitignore = true
+      · simp only [hu, if_true, he, Bool.and_true, Bool.and_false, Bool.false_eq_true, if_false]
+        by_cases hfail : (parentGis f root p).2 = true
+        · left; simp [hfail]
+        · simp only [hfail, Bool.false_eq_true, if_false]
+          exact fsOrSame_setGis (walkFrom_eofs c he f root p _) []
+      · simp only [hu, Bool.false_eq_true, if_false]
+        exact fsOrSame_setGis (walkFrom_eofs c he f root p s) []
+    · rename_i k sz _
+      generalize prologue c s = r
+      obtain ⟨s1, e1⟩ := r
+      cases e1 with
+      | some e => right; right; rfl
+      | none =>
+        simp only []
+        rcases handleLeaf_eofs c he f s1 p (statKind k) sz with h | h
+        · left
+          generalize handleLeaf c f s1 p (statKind k) sz = y at h ⊢
+          obtain ⟨s2, e2⟩ := y
+          simp only [] at h; subst h; rfl
+        · right; right; rw [h]
+
+theorem walkPaths_eofs (c : Cfg) (he : c.errorOnFSErrors = true) (f : Faults) (root : Node) :
+    ∀ (ps : List Path) (s : St), FsOrSame (walkPaths c f root s ps) (walkPaths (nonFatal c) f root s ps)
+  | [], s => by right; right; rfl
+  | p :: rest, s => by
+    simp only [walkPaths]
+    rcases walkRequested_eofs c he f root p s with h | h | h
+    · left
+      generalize walkRequested c f s root p = z at h ⊢
+      obtain ⟨s1, e1⟩ := z
+      simp only [] at h; subst h; simp
+    · right; left
+      generalize walkRequested c f s root p = z at h ⊢
+      obtain ⟨s1, e1⟩ := z
+      simp only [] at h; subst h; simp
+    · rw [h]
+      generalize walkRequested c f s root p = z
+      obtain ⟨s1, e1⟩ := z
+      simp only []
+      by_cases hne : e1 = .none
+      · subst hne
+        simp only [ne_eq, not_true_eq_false, if_false]
+        exact walkPaths_eofs c he f root rest s1
+      · simp only [ne_eq, hne, not_false_eq_true, if_true]; right; right; rfl
+
+theorem runRoot_eofs (c : Cfg) (he : c.errorOnFSErrors = true) (f : Faults) (root : Node) (s : St) :
+    FsOrSame (runRoot c f s root) (runRoot (nonFatal c) f s root) := by
+  unfold runRoot
+  simp only [nf_paths]
+  split
+  · exact walkFrom_eofs c he f root [] _
+  · exact walkPaths_eofs c he f root _ _
+
+theorem runRoots_eofs (c : Cfg) (he : c.errorOnFSErrors = true) :
+    ∀ (roots : List (Node × Faults)) (s : St) (acc : List Pkg) (sts : List (Nat × Status)),
+      (runRoots c s acc sts roots).err = .fs ∨ (runRoots c s acc sts roots).err = .panic ∨
+      runRoots (nonFatal c) s acc sts roots = runRoots c s acc sts roots
+  | [], s, acc, sts => by right; right; rfl
+  | (r, f) :: rest, s, acc, sts => by
+    simp only [runRoots, nf_nExt]
+    rcases runRoot_eofs c he f r s with h | h | h
+    · left
+      generalize runRoot c f s r = z at h ⊢
+      obtain ⟨s1, e1⟩ := z
+      simp only [] at h; subst h; simp
+    · right; left
+      generalize runRoot c f s r = z at h ⊢
+      obtain ⟨s1, e1⟩ := z
+      simp only [] at h; subst h; simp
+    · rw [h]
+      generalize runRoot c f s r = z
+      obtain ⟨s1, e1⟩ := z
+      simp only []
+      by_cases hne : e1 = .none
+      · subst hne
+        simp only [ne_eq, not_true_eq_false, if_false]
+        exact runRoots_eofs c he rest s1 _ _
+      · simp only [ne_eq, hne, not_false_eq_true, if_true]; right; right; trivial
+
+/-- **`ErrorOnFSErrors` acts only by failing** (every configuration, forest and fault plan): a scan with the
+flag set ends with the filesystem error (or an extractor's panic), or it is identical in every observable —
+error, inventory, statuses, attempts, visited inodes — to the scan with the flag cleared. -/
+theorem run_eofs (c : Cfg) (he : c.errorOnFSErrors = true) (roots : List (Node × Faults)) :
+    (run c roots).err = .fs ∨ (run c roots).err = .panic ∨ run (nonFatal c) roots = run c roots := by
+  unfold run
+  simp only [nf_cancelBefore]
+  exact runRoots_eofs c he roots _ [] []
+
+/-- **A fatal-errors scan that meets no traversal fault is the benign scan**: it succeeds, and its attempts,
+inventory and statuses are the benign specification's. -/
+theorem run_fatal_clean (c : Cfg) (hb : FatalCfg c) (hd : DomainLaw c.giMatch) (roots : List (Node × Faults))
+    (hnf : traversalFaultScan c roots = false) :
+    (run c roots).err = .none ∧ (run c roots).calls = mustExtract c roots ∧
+    (run c roots).pkgs = pkgsOfCalls c (mustExtract c roots) ∧
+    (run c roots).statuses = roots.flatMap fun (r, f) => (List.range c.nExt).map fun e => (e, statusSpec c f r e) := by
+  have herr := run_fatal c hb hd roots
+  rw [hnf] at herr
+  simp only [Bool.false_eq_true, if_false] at herr
+  have hben : Benign (nonFatal c) := ⟨hb.1, rfl, hb.2.2.1, hb.2.2.2.1, hb.2.2.2.2⟩
+  rcases run_eofs c hb.2.1 roots with h | h | h
+  · rw [herr] at h; cases h
+  · rw [herr] at h; cases h
+  · have hs := run_spec (nonFatal c) hben roots hd
+    have hr := run_results (nonFatal c) hben roots hd
+    rw [h] at hs hr
+    exact ⟨herr, hs.2, hr.1, hr.2⟩
 
 end Scalibr.Walk
